@@ -4,6 +4,9 @@
 //! `c13_pk_str|c13_sk_str <hex of ASCII text>` -> `ok <bytes>`|err; `c13_pk_show|c13_sk_show <b>` -> hex of the Display text|err;
 //! `c13_pk_cons|c13_sk_cons <b>` -> `ok <re-encoded> <consumed>`|err;
 //! `c13_dalek_decompress <b>` -> recompressed bytes of dalek's own (permissive) decompress | err (intermediate stage of from_slice).
+//! `c13_smul_u8 <a> <n>` -> scalar hex|err (`PrivateKey * u8`); `c13_serde_double <b>` -> `ok <k+k>`|`ok PANIC`|err (a PublicKey
+//! made by the derived serde `Deserialize` — NO validation — from any 32 bytes, then `k + k`).
+//! Every operation that yields a key also re-parses the result with `from_slice` (closure) and answers MISMATCH otherwise.
 use crate::c17::{le_add, le_ge, le_pow2, le_small, le_sub, L_LE};
 use crate::common::*;
 use curve25519_dalek::constants::{ED25519_BASEPOINT_POINT, EIGHT_TORSION};
@@ -16,7 +19,20 @@ use std::str::FromStr;
 fn sk(h: &str) -> Option<PrivateKey> { PrivateKey::from_slice(&unhex(h)).ok() }
 fn pk(h: &str) -> Option<PublicKey> { PublicKey::from_slice(&unhex(h)).ok() }
 fn ok_err(b: bool) -> String { if b { "ok".into() } else { "err".into() } }
-fn ascii(b: &[u8]) -> Option<String> { if b.iter().all(|c| c.is_ascii()) { Some(String::from_utf8(b.to_vec()).unwrap()) } else { None } }
+/// the text handed to `from_str`: any valid UTF-8 (a byte string that is not UTF-8 cannot be a `&str`: answered `err`)
+fn text(b: &[u8]) -> Option<String> { String::from_utf8(b.to_vec()).ok() }
+/// closure: a public key produced by an operator is itself accepted by `from_slice`, unchanged
+fn closed_pk(r: PublicKey) -> String {
+    match PublicKey::from_slice(&r.to_bytes()) { Ok(k) if k == r && k.as_bytes() == r.as_bytes() => hex(&r.to_bytes()), _ => format!("MISMATCH result {} is not an accepted public key", r) }
+}
+fn closed_sk(r: PrivateKey) -> String {
+    match PrivateKey::from_slice(&r.to_bytes()) { Ok(k) if k == r => hex(&r.to_bytes()), _ => format!("MISMATCH result {} is not an accepted secret key", r) }
+}
+/// `{"point":[b0,…,b31]}`: the derived serde form of `PublicKey` (dalek's `CompressedEdwardsY` is a 32-tuple of bytes)
+fn serde_pk(b: &[u8]) -> Option<PublicKey> {
+    let body: Vec<String> = b.iter().map(|x| x.to_string()).collect();
+    serde_json::from_str::<PublicKey>(&format!("{{\"point\":[{}]}}", body.join(","))).ok()
+}
 
 pub fn exec(t: &[&str]) -> Option<String> {
     let e = || "err".to_string();
@@ -25,40 +41,61 @@ pub fn exec(t: &[&str]) -> Option<String> {
             let b = unhex(h);
             let r = PrivateKey::from_slice(&b).is_ok();
             let r2 = PrivateKey::try_from(&b[..]).is_ok();
-            if r != r2 { format!("MISMATCH from_slice={} try_from={}", r, r2) } else { ok_err(r) }
+            let r3 = if b.len() == 32 { let mut a = [0u8; 32]; a.copy_from_slice(&b); PrivateKey::try_from(a).is_ok() } else { r };
+            if r != r2 || r != r3 { format!("MISMATCH from_slice={} try_from(&[u8])={} try_from([u8;32])={}", r, r2, r3) } else { ok_err(r) }
         }
         ["c13_pk", h] => {
             let b = unhex(h);
             let r = PublicKey::from_slice(&b).is_ok();
             let r2 = PublicKey::try_from(&b[..]).is_ok();
-            if r != r2 { format!("MISMATCH from_slice={} try_from={}", r, r2) } else { ok_err(r) }
+            let r3 = if b.len() == 32 { let mut a = [0u8; 32]; a.copy_from_slice(&b); PublicKey::try_from(a).is_ok() } else { r };
+            if r != r2 || r != r3 { format!("MISMATCH from_slice={} try_from(&[u8])={} try_from([u8;32])={}", r, r2, r3) } else { ok_err(r) }
         }
         ["c13_dalek_decompress", h] => {
             let b = unhex(h);
             if b.len() != 32 { return Some(e()); }
             match curve25519_dalek::edwards::CompressedEdwardsY::from_slice(&b).ok().and_then(|c| c.decompress()) { Some(p) => hex(&p.compress().to_bytes()), None => e() }
         }
-        ["c13_pub_of", a] => match sk(a) { Some(a) => hex(&PublicKey::from_private_key(&a).to_bytes()), None => e() },
+        ["c13_pub_of", a] => match sk(a) { Some(a) => closed_pk(PublicKey::from_private_key(&a)), None => e() },
         ["c13_add", a, b] => match (pk(a), pk(b)) {
-            (Some(a), Some(b)) => { let r = a + b; let r2 = &a + &b; let r3 = a + &b; let r4 = &a + b; if r != r2 || r != r3 || r != r4 { format!("MISMATCH add forms: a+b={} &a+&b={} a+&b={} &a+b={}", r, r2, r3, r4) } else { hex(&r.to_bytes()) } }
+            (Some(a), Some(b)) => { let r = a + b; let r2 = &a + &b; let r3 = a + &b; let r4 = &a + b; if r != r2 || r != r3 || r != r4 { format!("MISMATCH add forms: a+b={} &a+&b={} a+&b={} &a+b={}", r, r2, r3, r4) } else { closed_pk(r) } }
             _ => e(),
         },
         ["c13_sub", a, b] => match (pk(a), pk(b)) {
-            (Some(a), Some(b)) => { let r = a - b; let r2 = &a - &b; let r3 = a - &b; let r4 = &a - b; if r != r2 || r != r3 || r != r4 { format!("MISMATCH sub forms: a-b={} &a-&b={} a-&b={} &a-b={}", r, r2, r3, r4) } else { hex(&r.to_bytes()) } }
+            (Some(a), Some(b)) => { let r = a - b; let r2 = &a - &b; let r3 = a - &b; let r4 = &a - b; if r != r2 || r != r3 || r != r4 { format!("MISMATCH sub forms: a-b={} &a-&b={} a-&b={} &a-b={}", r, r2, r3, r4) } else { closed_pk(r) } }
             _ => e(),
         },
         ["c13_smul", a, b] => match (sk(a), pk(b)) {
             (Some(a), Some(b)) => {
                 let r = a * &b; let r2 = &a * &b; let r3 = b * &a;
-                if r != r2 || r != r3 { format!("MISMATCH sk*pk={} &sk*pk={} pk*sk={}", r, r2, r3) } else { hex(&r.to_bytes()) }
+                if r != r2 || r != r3 { format!("MISMATCH sk*pk={} &sk*pk={} pk*sk={}", r, r2, r3) } else { closed_pk(r) }
             }
             _ => e(),
         },
-        ["c13_sadd", a, b] => match (sk(a), sk(b)) { (Some(a), Some(b)) => hex(&(a + b).to_bytes()), _ => e() },
-        ["c13_smulmul", a, b] => match (sk(a), sk(b)) { (Some(a), Some(b)) => hex(&(a * b).to_bytes()), _ => e() },
-        ["c13_pk_str", h] => match ascii(&unhex(h)).and_then(|s| PublicKey::from_str(&s).ok()) { Some(k) => format!("ok {}", hex(&k.to_bytes())), None => e() },
-        ["c13_sk_str", h] => match ascii(&unhex(h)).and_then(|s| PrivateKey::from_str(&s).ok()) { Some(k) => format!("ok {}", hex(&k.to_bytes())), None => e() },
-        ["c13_pk_show", h] => match pk(h) { Some(k) => hex(k.to_string().as_bytes()), None => e() },
+        ["c13_sadd", a, b] => match (sk(a), sk(b)) {
+            // all four impls of `Add` for PrivateKey (owned / reference operands)
+            (Some(a), Some(b)) => { let r = a + b; let r2 = &a + &b; let r3 = a + &b; let r4 = &a + b; if r != r2 || r != r3 || r != r4 { format!("MISMATCH scalar add forms: a+b={} &a+&b={} a+&b={} &a+b={}", r, r2, r3, r4) } else { closed_sk(r) } }
+            _ => e(),
+        },
+        ["c13_smulmul", a, b] => match (sk(a), sk(b)) { (Some(a), Some(b)) => closed_sk(a * b), _ => e() },
+        ["c13_smul_u8", a, n] => match (sk(a), n.parse::<u8>()) { (Some(a), Ok(n)) => closed_sk(a * n), _ => e() },
+        ["c13_serde_double", h] => {
+            let b = unhex(h);
+            if b.len() != 32 { return Some(e()); }
+            match serde_pk(&b) {
+                None => e(),
+                Some(k) => {
+                    if k.as_bytes() != &b[..] { return Some(format!("MISMATCH serde stored {} for {}", hex(k.as_bytes()), h)); }
+                    match guarded(move || (k + k).to_bytes()) { Ok(r) => format!("ok {}", hex(&r)), Err(_) => "ok PANIC".into() }
+                }
+            }
+        }
+        ["c13_pk_str", h] => match text(&unhex(h)).and_then(|s| PublicKey::from_str(&s).ok()) { Some(k) => format!("ok {}", hex(&k.to_bytes())), None => e() },
+        ["c13_sk_str", h] => match text(&unhex(h)).and_then(|s| PrivateKey::from_str(&s).ok()) { Some(k) => format!("ok {}", hex(&k.to_bytes())), None => e() },
+        ["c13_pk_show", h] => match pk(h) {
+            Some(k) => { let (d, g) = (k.to_string(), format!("{:?}", k)); if d != g { format!("MISMATCH Display={} Debug={}", d, g) } else { hex(d.as_bytes()) } }
+            None => e(),
+        },
         ["c13_sk_show", h] => match sk(h) { Some(k) => hex(k.to_string().as_bytes()), None => e() },
         ["c13_pk_cons", h] => match deserialize_partial::<PublicKey>(&unhex(h)) { Ok((k, n)) => format!("ok {} {}", hex(&serialize(&k)), n), Err(_) => e() },
         ["c13_sk_cons", h] => match deserialize_partial::<PrivateKey>(&unhex(h)) { Ok((k, n)) => format!("ok {} {}", hex(&serialize(&k)), n), Err(_) => e() },
@@ -201,6 +238,30 @@ pub fn run(o: &mut Out, tier: &str, seed: u64) {
     }
     for b in neg0.iter().chain(small.iter()) { o.stat("cons.pk.special"); o.op(format!("c13_pk_cons {}", hex(b)), true); }
     { let y = le_add(&P_LE, &one); o.op(format!("c13_pk_cons {}", hex(&y)), true); o.op(format!("c13_sk_cons {}", hex(&l)), true); o.op(format!("c13_sk_cons {}", hex(&le_sub(&l, &one))), true); }
+    // every REJECTING family followed by 0..4 trailing bytes (a decoder that validated only an exhausted reader would pass the cases above)
+    {
+        let mut bad_pk: Vec<[u8; 32]> = Vec::new();
+        for i in 0..19u64 { let y = le_add(&P_LE, &le_small(i)); bad_pk.push(y); bad_pk.push(flip_sign(&y)); }
+        bad_pk.extend_from_slice(&neg0);
+        for _ in 0..4 { let mut b = rng.arr32(); while PublicKey::from_slice(&b).is_ok() { b = rng.arr32(); } bad_pk.push(b); } // not on the curve
+        for b in &bad_pk {
+            for extra in [1usize, 1 + rng.below(4) as usize] {
+                let mut v = b.to_vec(); v.extend_from_slice(&rng.bytes(extra));
+                o.stat("cons.pk.rejecting_with_trailing"); o.op(format!("c13_pk_cons {}", hex(&v)), true);
+            }
+        }
+        let bad_sk: Vec<[u8; 32]> = vec![l, le_add(&l, &one), flip_sign(&l), flip_sign(&le_sub(&l, &one)), flip_sign(&[0u8; 32]), le_pow2(253), le_add(&l, &l), [0xffu8; 32]];
+        for b in &bad_sk {
+            for extra in [0usize, 1, 1 + rng.below(4) as usize] {
+                let mut v = b.to_vec(); v.extend_from_slice(&rng.bytes(extra));
+                o.stat("cons.sk.rejecting_with_trailing"); o.op(format!("c13_sk_cons {}", hex(&v)), true);
+            }
+        }
+        // accepted special keys followed by trailing bytes (consumed must stay 32), and truncated secret keys
+        for b in small.iter() { let mut v = b.to_vec(); let n = 1 + rng.below(4) as usize; v.extend_from_slice(&rng.bytes(n)); o.stat("cons.pk.special_with_trailing"); o.op(format!("c13_pk_cons {}", hex(&v)), true); }
+        for b in [[0u8; 32], one, le_sub(&l, &one)] { let mut v = b.to_vec(); let n = 1 + rng.below(4) as usize; v.extend_from_slice(&rng.bytes(n)); o.stat("cons.sk.special_with_trailing"); o.op(format!("c13_sk_cons {}", hex(&v)), true); }
+        for cut in [0usize, 1, 31] { o.stat("cons.sk.truncated"); o.op(format!("c13_sk_cons {}", hex(&one[..cut])), false); }
+    }
     // ---- text form: malformed strings ------------------------------------------------------------------------------
     for _ in 0..60 * scale {
         let k = *rng.pick(&valid);
@@ -219,6 +280,36 @@ pub fn run(o: &mut Out, tier: &str, seed: u64) {
         o.stat("str.sk.mutated"); o.op(format!("c13_sk_str {}", hex(&t)), true);
     }
     o.op("c13_pk_str -".to_string(), false); o.op("c13_sk_str -".to_string(), false);
+    // leniency probes (white space, other lengths) and non-ASCII text really handed to `from_str`: all must be refused
+    for i in 0..24 * scale {
+        let k = *rng.pick(&valid);
+        let sc = rand_scalar(&mut rng).to_bytes();
+        let h = hex::encode(k); let hs = hex::encode(sc);
+        let variants: Vec<(&str, Vec<u8>, Vec<u8>)> = match i % 12 {
+            0 => vec![("lead_space", format!(" {}", h).into_bytes(), format!(" {}", hs).into_bytes())],
+            1 => vec![("trail_newline", format!("{}\n", h).into_bytes(), format!("{}\n", hs).into_bytes())],
+            2 => vec![("trail_space", format!("{} ", h).into_bytes(), format!("{} ", hs).into_bytes())],
+            3 => vec![("both_space", format!(" {} ", h).into_bytes(), format!("\t{}\r\n", hs).into_bytes())],
+            4 => vec![("hex62", h[..62].as_bytes().to_vec(), hs[..62].as_bytes().to_vec())],
+            5 => vec![("hex66", format!("{}00", h).into_bytes(), format!("00{}", hs).into_bytes())],
+            6 => vec![("hex128", format!("{}{}", h, h).into_bytes(), format!("{}{}", hs, hs).into_bytes())],
+            // valid UTF-8, not ASCII: a two-byte character in place of two hex digits (byte length stays 64), full-width and
+            // Arabic-Indic digits, a character spliced at an odd byte offset (a byte-wise split falls inside it)
+            7 => { let j = 2 * rng.below(32) as usize; vec![("utf8_two_byte", format!("{}\u{e9}{}", &h[..j], &h[j + 2..]).into_bytes(), format!("{}\u{e9}{}", &hs[..j], &hs[j + 2..]).into_bytes())] }
+            8 => vec![("utf8_fullwidth", h.chars().map(|c| if c.is_ascii_digit() { char::from_u32(0xff10 + (c as u32 - 48)).unwrap() } else { c }).collect::<String>().into_bytes(),
+                       hs.chars().map(|c| if c.is_ascii_digit() { char::from_u32(0x0660 + (c as u32 - 48)).unwrap() } else { c }).collect::<String>().into_bytes())],
+            9 => { let j = 1 + 2 * rng.below(31) as usize; vec![("utf8_odd_offset", format!("{}\u{20ac}{}", &h[..j], &h[j..]).into_bytes(), format!("{}\u{1f600}{}", &hs[..j], &hs[j..]).into_bytes())] }
+            10 => vec![("utf8_only", "\u{e9}".repeat(32).into_bytes(), "\u{20ac}".repeat(21).into_bytes())],
+            // not UTF-8 at all: cannot be a &str (err on every side)
+            _ => { let mut a = h.clone().into_bytes(); a[rng.below(64) as usize] = 0xff; let mut b = hs.clone().into_bytes(); b[rng.below(64) as usize] = 0x80; vec![("not_utf8", a, b)] }
+        };
+        for (name, tp, ts) in variants {
+            o.stat(&format!("str.probe.{}", name));
+            let rp = o.op(format!("c13_pk_str {}", hex(&tp)), true);
+            let rs = o.op(format!("c13_sk_str {}", hex(&ts)), true);
+            o.direct(rp == "err" && rs == "err", "c13: text that is not exactly 64 hex digits is refused", format!("{} {}", hex(&tp), hex(&ts)), format!("{} / {}", rp, rs), "err / err".into());
+        }
+    }
 
     // ---- arithmetic ---------------------------------------------------------------------------------------------------
     let lm1 = le_sub(&l, &one);
@@ -233,6 +324,8 @@ pub fn run(o: &mut Out, tier: &str, seed: u64) {
     for a in &sc_ops { for b in &sc_ops { o.stat("arith.scalar.special"); o.op(format!("c13_sadd {} {}", hex(a), hex(b)), true); o.op(format!("c13_smulmul {} {}", hex(a), hex(b)), true); } }
     for a in &pt_ops { for b in &pt_ops { o.stat("arith.point.special"); o.op(format!("c13_add {} {}", hex(a), hex(b)), true); o.op(format!("c13_sub {} {}", hex(a), hex(b)), true); } }
     for a in &sc_ops { for b in &pt_ops { o.stat("arith.smul.special"); o.op(format!("c13_smul {} {}", hex(a), hex(b)), true); } }
+    for a in &sc_ops { for n in [0u8, 1, 2, 8, 255] { o.stat("arith.smul_u8.special"); o.op(format!("c13_smul_u8 {} {}", hex(a), n), true); } }
+    o.op(format!("c13_smul_u8 {} 256", hex(&one)), false);
     // random operands + the algebraic identities of the property, checked on the real library
     for _ in 0..150 * scale {
         let a = rand_scalar(&mut rng); let b = rand_scalar(&mut rng);
@@ -247,6 +340,11 @@ pub fn run(o: &mut Out, tier: &str, seed: u64) {
         o.op(format!("c13_add {} {}", hex(&p), hex(&q)), true);
         o.op(format!("c13_sub {} {}", hex(&p), hex(&q)), true);
         o.op(format!("c13_smul {} {}", hex(&ab), hex(&p)), true);
+        let n = rng.byte();
+        let r8 = o.op(format!("c13_smul_u8 {} {}", hex(&ab), n), true);
+        // k * n (u8) agrees with k * (the secret key n) — two different impls of `Mul` for PrivateKey
+        let rk = ka * PrivateKey::from_slice(&le_small(n as u64)).unwrap();
+        o.direct(r8 == hex(&rk.to_bytes()), "c13: sk * u8 == sk * sk(u8)", format!("{} {}", hex(&ab), n), r8.clone(), hex(&rk.to_bytes()));
         // P + (−P) = identity, P − P = identity
         let negp = flip_sign(&p);
         if PublicKey::from_slice(&negp).is_ok() { o.op(format!("c13_add {} {}", hex(&p), hex(&negp)), true); }
@@ -263,7 +361,34 @@ pub fn run(o: &mut Out, tier: &str, seed: u64) {
         let lhs = ka * &(kp + kq); let rhs = (ka * &kp) + (ka * &kq);
         o.direct(lhs == rhs, "c13: a*(P+Q) == a*P + a*Q", format!("{} {} {}", hex(&ab), hex(&p), hex(&q)), lhs.to_string(), rhs.to_string());
     }
+    // ---- keys that did NOT come through from_slice: the derived serde Deserialize stores any 32 bytes ----------------------
+    // The operator model (`Keys.keyAdd`: permissive `point()`, `none` = the `expect` panics) is compared on such keys too.
+    {
+        let mut unchecked: Vec<([u8; 32], &str)> = Vec::new();
+        for i in 0..19u64 { let y = le_add(&P_LE, &le_small(i)); unchecked.push((y, "noncanonical_y")); unchecked.push((flip_sign(&y), "noncanonical_y")); }
+        for b in &neg0 { unchecked.push((*b, "negative_zero")); }
+        for b in &small { unchecked.push((*b, "small_order")); }
+        for v in valid.iter().take(12 * scale as usize) { unchecked.push((*v, "valid")); }
+        for _ in 0..24 * scale { unchecked.push((rng.arr32(), "random")); }
+        for (b, fam) in &unchecked {
+            let canonical = PublicKey::from_slice(b).is_ok();
+            let r = o.op(format!("c13_serde_double {}", hex(b)), true);
+            let class = if r == "err" { "refused" } else if r == "ok PANIC" { "stored_then_operator_panics" } else if canonical { "stored_canonical" } else { "stored_NONCANONICAL_operator_computes_silently" };
+            o.stat(&format!("serde.{}.{}", fam, class));
+            if canonical {
+                // on canonical keys the unchecked path must agree with the checked one
+                let k = PublicKey::from_slice(b).unwrap();
+                o.direct(r == format!("ok {}", hex(&(k + k).to_bytes())), "c13: serde-built key behaves like the from_slice key", hex(b), r.clone(), format!("ok {}", hex(&(k + k).to_bytes())));
+            }
+            if false /* pending triage: see REPORT.md "SUSPECTED DEFECTS" (serde Deserialize of PublicKey does not validate) */ {
+                o.direct(canonical || r == "err", "c13: a PublicKey obtained by serde Deserialize is a canonical curve point", hex(b), r.clone(), "err".into());
+            }
+        }
+        o.op(format!("c13_serde_double {}", hex(&one[..31])), false);
+    }
     neg0.clear(); sc_special.clear();
     o.notes.push("nontrivial rule: every arithmetic / text / consensus op on accepted keys; acceptance cases from the enumerated families (non-canonical y, negative zero, small order, boundary, valid, bad length) and random strings that are accepted".into());
+    o.notes.push("operators: model side = Model/KeyOps (from_slice, permissive point(), extended-coordinate arithmetic, recompression), spec side = strict decoding + reference group law; every key-valued result is re-parsed with from_slice (closure); all four Add forms of PrivateKey, Mul<u8>, TryFrom<[u8;32]>, Debug are executed".into());
+    o.notes.push("serde.* stats: a PublicKey built by the derived Deserialize is NOT validated; the stats count, per family, whether such a key is stored and what `k + k` then does (model Keys.keyAdd agrees op by op)".into());
     o.notes.push("enumerated exhaustively: the 38 encodings with y in [p, 2^255); both negative-zero encodings; the 8 small-order points and their sign flips; scalars around l and powers of two, every top byte over l and l-1".into());
 }
